@@ -22,7 +22,7 @@ from dashlive.utils.json_object import JsonObject
 
 from .base import HTMLHandlerBase
 from .csrf import CsrfProtection, CsrfTokenCollection
-from .decorators import login_required, jwt_login_required
+from .decorators import login_required, jwt_login_required, rejects_malformed_payload
 from .utils import jsonify, jsonify_no_content
 
 
@@ -137,6 +137,7 @@ class ListUsers(HTMLHandlerBase):
             users.append(user.summary())
         return jsonify(users)
 
+    @rejects_malformed_payload
     def put(self) -> flask.Response:
         """
         Add a new user
@@ -188,6 +189,7 @@ class EditUser(MethodView):
     ]
 
     @jwt_login_required()
+    @rejects_malformed_payload
     def post(self, upk: int) -> flask.Response:
         """
         Modifies a user
